@@ -1,7 +1,10 @@
 CONSTANTS
   SectorSize = 4
   TableSize = 4
+  HetSize = 8
   FlagFix = FALSE
+  UseHetBet = TRUE
+  BetFix = FALSE
 INIT HInit
 NEXT HNext
 CHECK_DEADLOCK FALSE
